@@ -237,9 +237,9 @@ def ospecOut (g : OSG) : Op → Out
   -- the compact numbering IS the iteration order
   | .toIndex n => match pos g.ns n with | some i => .nat i | none => .panic
   | .fromIndex i => match g.ns[i]? with | some n => .nat n | none => .panic
-  -- an edge is numbered under the name it is listed with; any other pair — also the other orientation of
-  -- an undirected edge — is "edge not found" (graphmap.rs looks the pair up without `edge_key`)
-  | .edgeToIndex a b => match pos (g.es.map (·.1)) (a, b) with | some i => .nat i | none => .panic
+  -- an edge is numbered by the position of the name it is listed with; either orientation of an undirected
+  -- edge names it (graphmap.rs looks up `edge_key(a, b)`); a pair that is not an edge is "edge not found"
+  | .edgeToIndex a b => match pos (g.es.map (·.1)) (okey g.directed a b) with | some i => .nat i | none => .panic
   | .edgeFromIndex i => match g.es[i]? with | some e => .pair e.1.1 e.1.2 | none => .panic
   -- `into_graph`: node weights in node order, the edges in edge order between the positions of their ends
   | .intoGraph => .graph g.ns (g.es.map fun e => (pos g.ns e.1.1, pos g.ns e.1.2, e.2))
